@@ -3,7 +3,7 @@
 cd "$(dirname "$0")"
 mkdir -p build evidence replays
 chmod +x check tools/*.sh 2>/dev/null
-if grep -rnE '\b(Admitted|admit|Axiom|Parameter|Conjecture)\b|Unset Guard Checking|bypass_check' coq/theories --include='*.v' | grep -v '(\*' ; then
+if ! python3 tools/forbidden.py; then
   echo "setup: forbidden token in the Coq development"; exit 1
 fi
 tools/build.sh > build/setup.log 2>&1
